@@ -1957,6 +1957,12 @@ class Extractor(object):
                 env_body[n] = ("carried", n, lid) if pre is None else ("phi", (pre, ("carried", n, lid)))
             if isinstance(s, ast.For):
                 flt = None
+                if it[0] == "local" and len(it) > 3 and isinstance(it[3], tuple) and it[3] and it[3][0] == "comp" \
+                        and it[3][1] == "list" and isinstance(s.iter, ast.Name):
+                    # names = [y for y in coll if test(y)]; for x in names: ...   (the list is only the loop's iterable)
+                    uses = sum(1 for n_ in ast.walk(self.func) if isinstance(n_, ast.Name) and n_.id == s.iter.id)
+                    if uses == 2:
+                        it = it[3]
                 if it[0] == "comp" and it[1] in ("gen", "list") and len(it[3]) == 1:
                     # for x in (f(y) for y in coll if test(y)):  ==  for y in coll: if not test(y): continue; x = f(y)
                     flt = it
